@@ -86,6 +86,9 @@ type UserType struct {
 	Kind        string  `json:"kind"` // type | result | alias
 	Def         *Type   `json:"def"`
 	Val         *Val    `json:"val,omitempty"` // alias validations
+	// AliasDefault: a default declared on a primitive alias type itself (canonical leaf). Only used by types whose
+	// every use carries a default of its own: the attribute-level default is the one that counts.
+	AliasDefault any `json:"alias_default,omitempty"`
 	Views       []*View `json:"views,omitempty"`
 	ContentType string  `json:"content_type,omitempty"`
 	Extend      string  `json:"extend,omitempty"`
